@@ -171,6 +171,28 @@ func (r *Run) buildTool(name, pkg string) (string, error) {
 	return out, nil
 }
 
+// headTail keeps the first and the last n bytes of a child's output (the cause of a fatal
+// error is at its head, the goroutine that was running at its tail).
+func headTail(b []byte, n int) string {
+	if len(b) <= 2*n {
+		return string(b)
+	}
+	return string(b[:n]) + "\n… (" + fmt.Sprint(len(b)-2*n) + " bytes omitted) …\n" + string(b[len(b)-n:])
+}
+
+// crashCause is the first line of a child's output that names why it died.
+func crashCause(b []byte) string {
+	for _, l := range strings.Split(string(b), "\n") {
+		t := strings.TrimSpace(l)
+		for _, p := range []string{"fatal error:", "panic:", "SIGQUIT", "SIGSEGV", "SIGBUS", "runtime:", "unexpected fault", "WARNING: DATA RACE"} {
+			if strings.HasPrefix(t, p) {
+				return t
+			}
+		}
+	}
+	return ""
+}
+
 func tail(b []byte, n int) string {
 	if len(b) > n {
 		return "…" + string(b[len(b)-n:])
@@ -269,6 +291,10 @@ type Crash struct {
 	Exit    string
 	Output  string
 	Timeout bool
+	// Cause: the line of the child's output that names why it died ("" if none)
+	Cause string
+	// NotRepeated: the journalled case, run again alone in a fresh child, completed
+	NotRepeated bool
 }
 
 // runShards runs bin as n children and merges their output.
@@ -305,7 +331,7 @@ func (r *Run) runShards(bin string, n int, timeoutSec int, extraArgs []string, e
 			if err != nil || !done {
 				jb, _ := os.ReadFile(jr)
 				lb, _ := os.ReadFile(logp)
-				cr := Crash{Shard: i, Case: strings.TrimSpace(string(jb)), Output: tail(lb, 6000)}
+				cr := Crash{Shard: i, Case: strings.TrimSpace(string(jb)), Output: headTail(lb, 3000), Cause: crashCause(lb)}
 				if err != nil {
 					cr.Exit = err.Error()
 					if ee, ok := err.(*exec.ExitError); ok && ee.ExitCode() == 124 {
@@ -313,6 +339,27 @@ func (r *Run) runShards(bin string, n int, timeoutSec int, extraArgs []string, e
 					}
 				} else {
 					cr.Exit = "no completion marker"
+				}
+				// confirm: the journalled case is run again, alone, in a fresh child. A death that
+				// does not repeat (a one-off of the environment) is reported as inconclusive, not as
+				// a violation; one that repeats is a violation.
+				if cr.Case != "" && !cr.Timeout && r.Only == "" {
+					res2 := res + ".confirm"
+					args2 := []string{"-s", "QUIT", fmt.Sprint(timeoutSec), bin, "-prop", r.Prop, "-tier", r.Tier, "-seed", fmt.Sprint(r.Seed),
+						"-shard", "0", "-nshards", "1", "-out", res2, "-journal", jr + ".confirm", "-only", cr.Case}
+					args2 = append(args2, extraArgs...)
+					c2 := exec.Command("timeout", args2...)
+					c2.Dir = r.Work
+					c2.Env = append(append([]string{}, r.Env...), extraEnv...)
+					out2, err2 := c2.CombinedOutput()
+					b2, _ := os.ReadFile(res2)
+					if err2 == nil && bytes.Contains(b2, []byte(`"t":"done"`)) {
+						cr.NotRepeated = true
+					} else if err2 != nil {
+						cr.Output += "\n--- the case run again alone died again (" + err2.Error() + "): " + headTail(out2, 1500)
+					}
+					os.Remove(res2)
+					os.Remove(jr + ".confirm")
 				}
 				mu.Lock()
 				crashes = append(crashes, cr)
